@@ -253,6 +253,13 @@ fn random_candles(ctx: &Ctx, r: &mut Report) {
 			if pat & 4 != 0 && wi % 3 == 2 {
 				c.volume = V::NAN;
 			}
+			// the all-zero candle (Candle::default()) is an ordinary operand of +, in any position
+			match wi % 11 {
+				3 => a = Candle::default(),
+				5 => b = Candle::default(),
+				7 => c = Candle::default(),
+				_ => {}
+			}
 			let any_nan = a.volume.is_nan() || b.volume.is_nan() || c.volume.is_nan();
 			let l = (a + b) + c;
 			let rr = a + (b + c);
